@@ -49,6 +49,30 @@ Proof.
 Qed.
 Print Assumptions C17_padded_equal_after_extension.
 
+(* the command line (fixed by 31ec1de, F-C17a): with the matching enabled a pair of different space dimension whose extended
+   views are equal passes under every setting of the reordering option; with the matching disabled only the views as
+   stored count; the dispatch found at the pinned commit is refuted by a 2-d mesh and its zero-padded twin under
+   --disable-mesh-reordering *)
+Theorem C17_cli_matches_dimensions : forall eq dr bs v,
+  (let '(a0, b0) := lv_as_is v in (space_dim a0 =? space_dim b0) = false) ->
+  (let '(a1, b1) := lv_extended v in eq a1 b1 = true) ->
+  cli_mesh_fixed eq false dr bs v = true.
+Proof. exact cli_mesh_fixed_matches_dimensions. Qed.
+Print Assumptions C17_cli_matches_dimensions.
+
+Theorem C17_cli_matching_disabled : forall eq bs v,
+  cli_mesh_fixed eq true true bs v = (let '(a0, b0) := lv_as_is v in eq a0 b0).
+Proof. exact cli_mesh_fixed_disabled. Qed.
+Print Assumptions C17_cli_matching_disabled.
+
+Theorem C17_cli_pinned_refuted :
+  exists v, (space_dim (fst (lv_as_is v)) =? space_dim (snd (lv_as_is v))) = false /\
+            mesh_equal 0%Q 0%Q (fst (lv_extended v)) (snd (lv_extended v)) = true /\
+            cli_mesh_pinned (mesh_equal 0%Q 0%Q) false true false v = false /\
+            cli_mesh_fixed (mesh_equal 0%Q 0%Q) false true false v = true.
+Proof. exact cli_mesh_pinned_refuted. Qed.
+Print Assumptions C17_cli_pinned_refuted.
+
 Example C17_nonvacuous :
   let M := {| pts := [[1#1; 2#1]; [3#1; 4#1]]; cells := [(3, [[0;1]])] |} in
   pts (extend_points 3 M) = [[1#1; 2#1; 0#1]; [3#1; 4#1; 0#1]] /\
